@@ -194,7 +194,8 @@ def _populate(rng, top, nonutf8, depth=0):
 def build_fixture(fxspec):
     """One fixture set under a fresh temporary directory.  Everything is derived from fxspec['seed']."""
     rng = _random.Random(fxspec["seed"])
-    nonutf8 = bool(fxspec.get("nonutf8"))
+    nonutf8 = bool(fxspec.get("nonutf8"))           # names inside the trees, link texts
+    nonutf8_arg = bool(fxspec.get("nonutf8_arg"))   # names of the arguments themselves
     root = tempfile.mkdtemp(prefix="c18-").encode()
     fx = {"root": root, "spec": dict(fxspec)}
     try:
@@ -202,7 +203,7 @@ def build_fixture(fxspec):
 
         def top(prefix):
             while True:
-                n = _rname(rng, nonutf8, prefix)
+                n = _rname(rng, nonutf8_arg, prefix)
                 if n not in used and n != b"-":
                     used.add(n)
                     return os.path.join(root, n)
@@ -259,7 +260,12 @@ def get_fixture(fxspec):
     key = core.canon(fxspec)
     if key not in _FX:
         _cleanup()                     # at most one fixture set on disk
-        _FX[key] = build_fixture(fxspec)
+        try:
+            _FX[key] = build_fixture(fxspec)
+        except Exception as e:         # remember the failure: never rebuild in a loop
+            _FX[key] = {"root": b"/nonexistent-c18", "failed": e}
+    if "failed" in _FX[key]:
+        raise _FX[key]["failed"]
     return _FX[key]
 
 
@@ -307,7 +313,11 @@ def expected_ids(fx):
         for x in (0, 1):
             ids["dir:%s:%d" % (k, x)] = str(_dir_id(p, x).swhid())
     for k in ("file", "dir", "linkfile", "linkdir", "gitrepo"):
-        ids["origin:" + k] = str(model.Origin(url=os.fsdecode(fx[k])).swhid())
+        # out of scope (-t origin <path>); a path that is not valid UTF-8 is not a valid origin URL
+        try:
+            ids["origin:" + k] = str(model.Origin(url=os.fsdecode(fx[k])).swhid())
+        except UnicodeEncodeError:
+            ids["origin:" + k] = None
     ids["origin:url"] = str(model.Origin(url=fx["url"]).swhid())
     ids["snapshot"] = str(_snapshot_id(fx["gitrepo"]))
     # the fixture must be generic: distinct designated objects, distinct identifiers; the exclusion removes something
@@ -447,6 +457,8 @@ def run_subprocess(args, stdin, cwd):
 
 
 def impl(case):
+    """run the command; everything that needs the fixture on disk is evaluated here, while it exists: the observed
+    run and its difference with the observable of the model's / the specification's outcome (driver tokens)"""
     try:
         fx = get_fixture(case["fx"])
         cfg = case["cfg"]
@@ -454,18 +466,22 @@ def impl(case):
         args, arg = cli_args(fx, cfg, row)
         stdin = fx["stdin"] if cfg[0] == "stdin" else None
         if case.get("sub"):
-            return run_subprocess(args, stdin, os.fsdecode(fx["root"]))
-        return run_inprocess(args, stdin)
+            run = run_subprocess(args, stdin, os.fsdecode(fx["root"]))
+        else:
+            run = run_inprocess(args, stdin)
+        res = {"run": run, "args": [a if a != arg else "<" + cfg[0] + ">" for a in args],
+               "outcomes": {"model": row["model"], "spec": row["spec"]}}
+        res["diff_model"] = diff(run, expected(fx, cfg, row["model"]))
+        res["diff_spec"] = res["diff_model"] if row["spec"] == row["model"] else diff(run, expected(fx, cfg, row["spec"]))
+        return res
     except Exception as e:
         import traceback
         return {"error": core.exc_class(e), "trace": traceback.format_exc()[-800:]}
 
 
 # ------------------------------------------------------------------ expected observable of an outcome
-def expected(case, outcome):
+def expected(fx, cfg, outcome):
     """canonical observable that the outcome (a driver token such as print,dirpath,1,1,0) stands for"""
-    fx = get_fixture(case["fx"])
-    cfg = case["cfg"]
     k = cfg[0]
     parts = outcome.split(",")
     if parts[0] == "usage":
@@ -481,6 +497,8 @@ def expected(case, outcome):
     arg = "-" if k == "stdin" else fx["url"] if k == "url" else os.fsdecode(fx[k])
     if not listing:
         i = obj_id(fx, k, obj, excluded)
+        if i is None:       # -t origin <path that is not valid UTF-8> (out of scope): Origin() refuses the URL
+            return {"exit": 1, "lines": [], "exc": "UnicodeEncodeError"}
         return {"exit": 0, "lines": [i + "\t" + arg if shown else i], "other_lines": 0}
     ids, pairs = tree_nodes(fx, k, excluded)
     return {"exit": 0, "listing": True, "ids": ids, "pairs": pairs, "shown": shown, "other_lines": 0}
@@ -571,18 +589,24 @@ def model(c, resp):
 
 def oracle(c, ires, mres):
     """the property on the implementation: in scope, the command behaves as the specification says"""
+    if "error" in ires:
+        return None          # harness failure: reported by compare()
     if mres.get("inscope") != "1":
         return None
-    why = diff(ires, expected(c, mres["spec"]))
-    if why:
-        return "spec %s: %s" % (mres["spec"], why)
+    if ires["outcomes"]["spec"] != mres["spec"]:
+        return None
+    if ires["diff_spec"]:
+        return "%s: spec %s: %s" % (" ".join(ires["args"]), mres["spec"], ires["diff_spec"])
     return None
 
 
 def compare(c, ires, mres):
-    why = diff(ires, expected(c, mres["model"]))
-    if why:
-        return "identify_model %s: %s" % (mres["model"], why)
+    if "error" in ires:
+        return "harness error " + ires["error"] + " " + ires.get("trace", "")
+    if ires["outcomes"] != {"model": mres.get("model"), "spec": mres.get("spec")}:
+        return "driver answers differ between two calls: %r / %r" % (ires["outcomes"], mres)
+    if ires["diff_model"]:
+        return "%s: identify_model %s: %s" % (" ".join(ires["args"]), mres["model"], ires["diff_model"])
     return None
 
 
